@@ -690,7 +690,9 @@ class RotationImplemented(BaseAlignmentModel):
             _template = [_template]
         if _mask.ndim == 3:
             _mask = [_mask]
-        for quat, tmp, mask in zip(self.quaternions, _template, _mask):
+        for i, (tmp, mask) in enumerate(zip(_template, _mask)):
+            # candidates are ordered as (rot0, temp0), (rot0, temp1), ...
+            quat = self.quaternions[i // self._n_templates]
             pool.add_task(
                 self.pre_transform(img_input * mask, xp),
                 tmp,
@@ -701,12 +703,12 @@ class RotationImplemented(BaseAlignmentModel):
             )
         results = pool.compute()
         scores = [x[2] for x in results]
-        iopt = np.argmax(scores)
+        iopt = int(np.argmax(scores))
         opt_result = results[iopt]
         result = AlignmentResult(
-            label=0,
+            label=iopt,
             shift=opt_result[0],
-            quat=self.quaternions[iopt],
+            quat=self.quaternions[iopt // self._n_templates],
             score=opt_result[2],
         )
 
